@@ -65,10 +65,32 @@ const maxIter = 10000
 
 // ReaderLoop: one Reader for the whole stream; NextFrame + Read with a caller buffer of
 // size buf until EOF. OnIntermediate / OnContinuation record what they are handed.
-func ReaderLoop(buf int) Driver {
+func ReaderLoop(buf int) Driver { return readerLoop(buf, -1) }
+
+// ReaderLazyHandler: like ReaderLoop(7), but the control handler looks at no more than k
+// bytes of a control frame's payload and returns nil (a handler that ignores Pongs, or only
+// wants a prefix). The reader has to skip what the handler left. Control events carry the
+// first k bytes only.
+func ReaderLazyHandler(k int) Driver { return readerLoop(7, k) }
+
+func readerLoop(buf, lazy int) Driver {
+	name, expect := fmt.Sprintf("Reader/buf%d", buf), identity
+	if lazy >= 0 {
+		name = fmt.Sprintf("Reader/handler-reads-%d", lazy)
+		expect = func(ev []Event) []Event {
+			var out []Event
+			for _, e := range ev {
+				if e.Kind == "ctl" && len(e.Payload) > lazy {
+					e.Payload = e.Payload[:lazy]
+				}
+				out = append(out, e)
+			}
+			return out
+		}
+	}
 	return Driver{
-		Name:   fmt.Sprintf("Reader/buf%d", buf),
-		Expect: identity,
+		Name:   name,
+		Expect: expect,
 		Run: func(src io.Reader, side streams.Side, cfg Cfg, res *Result) {
 			st := State(side)
 			if cfg.Extended {
@@ -77,6 +99,12 @@ func ReaderLoop(buf int) Driver {
 			rd := &wsutil.Reader{Source: src, State: st, MaxFrameSize: cfg.MaxFrameSize, CheckUTF8: cfg.CheckUTF8, Extensions: cfg.Extensions}
 			res.Reader = rd
 			rd.OnIntermediate = func(h ws.Header, r io.Reader) error {
+				if lazy >= 0 {
+					p := make([]byte, lazy)
+					n, _ := io.ReadFull(r, p)
+					res.Events = append(res.Events, Event{Kind: "ctl", Op: byte(h.OpCode), Payload: p[:n]})
+					return nil
+				}
 				p, err := io.ReadAll(r)
 				if err != nil {
 					return err
@@ -118,6 +146,9 @@ func ReaderLoop(buf int) Driver {
 				kind := "msg"
 				if h.OpCode.IsControl() {
 					kind = "ctl"
+					if lazy >= 0 && len(p) > lazy {
+						p = p[:lazy]
+					}
 				}
 				res.Events = append(res.Events, Event{Kind: kind, Op: byte(h.OpCode), Payload: p})
 				res.Partial = nil
@@ -150,7 +181,11 @@ func ReaderDiscard(k int) Driver {
 			return out
 		},
 		Run: func(src io.Reader, side streams.Side, cfg Cfg, res *Result) {
-			rd := &wsutil.Reader{Source: src, State: State(side), MaxFrameSize: cfg.MaxFrameSize, CheckUTF8: cfg.CheckUTF8}
+			st := State(side)
+			if cfg.Extended {
+				st |= ws.StateExtended
+			}
+			rd := &wsutil.Reader{Source: src, State: st, MaxFrameSize: cfg.MaxFrameSize, CheckUTF8: cfg.CheckUTF8, Extensions: cfg.Extensions}
 			res.Reader = rd
 			rd.OnIntermediate = func(h ws.Header, r io.Reader) error {
 				p, err := io.ReadAll(r)
@@ -442,6 +477,7 @@ func ParseFrames(b []byte) (out []refmodel.Frame, rest []byte) {
 func All() []Driver {
 	return []Driver{
 		ReaderLoop(1), ReaderLoop(2), ReaderLoop(7), ReaderLoop(512),
+		ReaderLazyHandler(0), ReaderLazyHandler(1),
 		ReaderDiscard(0), ReaderDiscard(1), ReaderDiscardUTF8(1), ReaderDiscardUTF8(2),
 		NextReaderLoop(), ReadMessageLoop(),
 		ReadDataLoop("Generic"), ReadDataLoop("Data"), ReadDataLoop("Text"), ReadDataLoop("Binary"),
